@@ -46,7 +46,12 @@ def gen_tree(w, c, depth=0):
         else:
             size = w.pick((0, 1, c - 1, c, c + 1, 2 * c, 2 * c + 1, 3 * c - 1))
             seed = w.draw(251)
-            tree[name] = bytes((seed + i * 7) % 256 for i in range(max(0, size)))
+            if w.draw(3) == 0:
+                # content that does not shrink under zlib (already compressed / encrypted files)
+                import random as _r
+                tree[name] = _r.Random(seed * 1000003 + size).randbytes(max(0, size))
+            else:
+                tree[name] = bytes((seed + i * 7) % 256 for i in range(max(0, size)))
     return tree
 
 
